@@ -9,7 +9,8 @@ a sha256 of the generated sources, used as build-cache key).
 
 Rules (DESIGN.md 3.2):
   1. \\bisize\\b -> SymInt in every .rs file, plus one `use symx_int::SymInt;`
-  2. `(u - l) as f32 / u as f32` -> `.to_f32()` calls            (solver.rs gap)
+  2. the body of the default method `Solver::gap` is cut (float/i128 casts of the
+     cost type; gap is decided by Kani on the unmodified crate, E2 never calls it)
   3. `node.value_bot = 0;` -> `SymInt::lit(0)`                   (clean/pooled)
   4. `match x { isize::MAX => .., isize::MIN => .., _ => .. }` -> if/else chain
   5. (--sched) `symx_sched::worker_enter(i)` inserted as first statement of the
@@ -29,11 +30,19 @@ def rewrite_file(rel, text, sched, hits):
         return ("if x == isize::MAX { %s } else if x == isize::MIN { %s } else { %s }"
                 % (m.group('a').strip(), m.group('b').strip(), m.group('c').strip()))
     text = pat4.sub(r4, text)
-    # rule 2
-    n2 = text.count("(u - l) as f32 / u as f32")
-    if n2:
-        hits['rule2_gap_cast'] += n2
-        text = text.replace("(u - l) as f32 / u as f32", "(u - l).to_f32() / u.to_f32()")
+    # rule 2: Solver::gap mixes the cost type with float / i128 casts; it is decided
+    # bit-precisely by the Kani harness on the unmodified crate, E2 never calls it,
+    # so its body is cut out of the shadow copy (robust against edits of gap).
+    if rel.endswith("abstraction/solver.rs"):
+        m = re.search(r"fn gap\(&self\) -> f32 \{", text)
+        if m:
+            i = m.end()
+            depth = 1
+            while depth > 0 and i < len(text):
+                depth += {"{": 1, "}": -1}.get(text[i], 0)
+                i += 1
+            text = text[:m.end()] + " let _ = (self.best_upper_bound(), self.best_lower_bound()); f32::NAN /* cut: outside E2, see rewrite.py rule 2 */ }" + text[i:]
+            hits['rule2_gap_cut'] += 1
     # rule 3
     n3 = len(re.findall(r"\.value_bot\s*=\s*0\s*;", text))
     if n3:
@@ -70,7 +79,7 @@ def main():
     if os.path.exists(dst):
         shutil.rmtree(dst)
     os.makedirs(os.path.join(dst, "src"))
-    hits = dict(rule1_isize=0, rule2_gap_cast=0, rule3_value_bot_zero=0, rule4_extreme_match=0, rule5_worker_enter=0)
+    hits = dict(rule1_isize=0, rule2_gap_cut=0, rule3_value_bot_zero=0, rule4_extreme_match=0, rule5_worker_enter=0)
     h = hashlib.sha256()
     files = []
     for root, _, fs in os.walk(src):
